@@ -104,6 +104,9 @@ func (e *Env) applySpecFn(fobj *types.Func, argExprs []ast.Expr) sval {
 		ts = append(ts, t)
 	}
 	fc.useSpec(def.Name)
+	if fc.collectApps && def.Rec {
+		fc.apps = append(fc.apps, specApp{def, ts})
+	}
 	return sval{v: Leaf(mk(def.Result, smtName(def.Name), ts...)), t: sig.Results().At(0).Type()}
 }
 
@@ -307,7 +310,7 @@ func (e *Engine) specDefsText(used map[string]bool, opaque map[string]bool) stri
 			ps = append(ps, fmt.Sprintf("(%s %s)", p.S, p.Sort))
 			sorts = append(sorts, string(p.Sort))
 		}
-		if opaque[n] {
+		if opaque[n] && d.Rec {
 			fmt.Fprintf(&sb, "(declare-fun %s (%s) %s)\n", smtName(n), strings.Join(sorts, " "), d.Result)
 			continue
 		}
@@ -318,4 +321,16 @@ func (e *Engine) specDefsText(used map[string]bool, opaque map[string]bool) stri
 		fmt.Fprintf(&sb, "(%s %s (%s) %s %s)\n", kw, smtName(n), strings.Join(ps, " "), d.Result, d.Body)
 	}
 	return sb.String()
+}
+
+// unfolding returns the one-level definitional equation of a recorded application.
+func (a specApp) unfolding() Term {
+	var lets []string
+	var args []string
+	for i, p := range a.def.Params {
+		lets = append(lets, fmt.Sprintf("(%s %s)", p.S, a.args[i].S))
+		args = append(args, a.args[i].S)
+	}
+	app := fmt.Sprintf("(%s %s)", smtName(a.def.Name), strings.Join(args, " "))
+	return Term{fmt.Sprintf("(= %s (let (%s) %s))", app, strings.Join(lets, " "), a.def.Body), SBool}
 }
